@@ -27,7 +27,8 @@ Definition ref_arity (e : env) (raw2 : node) (names : list (Z * string)) (r : pr
   let tables := map table_of_rangevar rvs in
   let aliases := rev (flat_map (fun rv => if is_nil (kid "Alias" rv) then []
                                           else [(str_of "Aliasname" (kid "Alias" rv), table_of_rangevar rv)]) rvs) in
-  match resolve_one e tables aliases (match tables with t :: _ => Some t | [] => None end) names r with
+  let bare := map table_of_rangevar (filter (fun rv => is_nil (kid "Alias" rv)) rvs) in
+  match resolve_one e tables bare aliases (match tables with t :: _ => Some t | [] => None end) names r with
   | Ok ps => Some (List.length ps)
   | _ => None
   end.
